@@ -30,7 +30,7 @@ CHECKS = ("lifecycle",)
 
 def sub_machine(col, budget, seed, tier, shard, nshards):
     M.run(col, SimWorld, CHECKS, M.base_cfg(limits="some", custom_control=True), budget, 30 if tier == "quick" else 60, seed, tier, "sim-machine",
-          rule_weights={"txn": 2})  # batched requests incl. a flush (execute) in the middle of a transaction
+          rule_weights={"txn": 2, "replace_through": 1})  # batched requests incl. a flush (execute) in the middle of a transaction
 
 
 # ---- direct object-level sequences for both order classes -----------------------------------------
